@@ -824,4 +824,74 @@ theorem reads_deliver_stream_prefix_fresh (cap : Nat) (req : Req.Request) (input
   exact (reads_deliver_stream_prefix ⟨AReq.new (Parser.fromParser cap req input0 mc), none, t⟩ ops
     a b (C02.start_fresh cap req input0 mc hlen hid hrole) rfl hrecs tail hwire).2.1
 
+/-! ## Concrete instances (non-vacuity) -/
+
+section Examples
+
+/-- A Responder request (id 1) right after `Request::new`, 64-byte buffer. -/
+def exR : AReq := AReq.new (Parser.fromParser 64 { id := 1, role := 1, flags := 0, env := [] } [] 10)
+
+example : AInv exR ∧ LockInv exR none ∧ WInv exR ∧ exR.writeable = true :=
+  ⟨(new_inv_fresh 64 _ [] 10 (by decide) (by decide) (by decide)).1,
+   (new_inv_fresh 64 _ [] 10 (by decide) (by decide) (by decide)).2.1,
+   (new_inv_fresh 64 _ [] 10 (by decide) (by decide) (by decide)).2.2, by decide⟩
+
+/-- The peer sends a record of unknown type 99 (owed reply: a 16-byte `UnknownType` record), then
+`Stdin(id 1, "AB")`, then the empty `Stdin`; the first transport read returns 8 bytes only. -/
+def exT : Transport :=
+  { input := [1, 99, 0, 0, 0, 0, 0, 0] ++ [1, 5, 0, 1, 0, 2, 0, 0, 65, 66] ++ [1, 5, 0, 1, 0, 0, 0, 0],
+    endMode := .eof, rd := [.n 8], wr := [], fl := [] }
+
+/-- `read(&mut [0; 8])`: the first transport read brings the unknown record only, so the loop has to
+read again; the reply is written out *before* that second read (16 bytes in the log, reply buffer
+empty again); then "AB" is returned. -/
+example : (exR.pollInput (some 8) none exT).2.2.2 = .ready 2 [65, 66] ∧
+    (exR.pollInput (some 8) none exT).2.2.1.wlog.length = 16 ∧
+    (exR.pollInput (some 8) none exT).1.sp.output = [] ∧
+    (exR.pollInput (some 8) none exT).2.2.1.input = [] := by decide +kernel
+
+/-- The next read reports end of stream: `Ok(0)`; the request is then in an end-of-stream state with
+an empty reply buffer, so by `eof_persists` every further poll returns `Ok(0)` with no transport
+call. -/
+example :
+    let s1 := exR.pollInput (some 8) none exT
+    (s1.1.pollInput (some 8) s1.2.1 s1.2.2.1).2.2.2 = .ready 0 [] ∧
+    (s1.1.pollInput (some 8) s1.2.1 s1.2.2.1).1.sp.output = [] := by decide +kernel
+
+/-- A Filter standing in front of a `Data` header while `Stdin` is active (`C18.demo3`): an
+end-of-stream state; `fill_buf` and `read` return `Ok(0)` with no transport call, by
+`eof_persists`. -/
+def exEof : AReq := { sp := C18.demo3, lock := .none, writeable := false }
+
+theorem exEof_inv : AInv exEof ∧ LockInv exEof none ∧ EofSt exEof :=
+  ⟨⟨SInv_fromParser _ _ _ _ (by decide) (by decide), by decide⟩,
+   ⟨by decide, fun _ => rfl⟩,
+   ⟨⟨1, 8, 0, 1, 0, 3, 0, 0, [9, 9, 9],
+      { rtype := 8, requestId := 1, contentLength := 3, paddingLength := 0 },
+      rfl, rfl, by decide, rfl, Or.inr (by decide)⟩, rfl, rfl⟩⟩
+
+example (dest : Option Nat) (t : Transport) :
+    ∃ r', exEof.pollInput dest none t = (r', none, t, .ready 0 []) ∧ r'.sp = exEof.sp :=
+  let ⟨r', h, hs, _⟩ := eof_persists exEof_inv.1 exEof_inv.2.1 exEof_inv.2.2 rfl dest t
+  ⟨r', h, hs⟩
+
+/-- `set_stream(Data)` is accepted there (Data is later than Stdin for a Filter); `set_stream`
+back to `Stdin` afterwards would be the documented panic. -/
+example : (∃ r', exEof.setStream 8 = some r') ∧
+    ∀ r', exEof.setStream 8 = some r' → r'.setStream 5 = none := by
+  have h8 := set_stream_async exEof_inv.1 (s := 8) rfl
+  refine ⟨h8.1.mpr (Or.inr (by decide)), fun r' hr' => ?_⟩
+  obtain ⟨-, -, hs, -, -, -, -, hreq, hinv', -, -⟩ := h8.2.2 r' hr'
+  refine (set_stream_async hinv' (s := 5) rfl).2.1 ?_
+  rw [hs, hreq]
+  decide
+
+/-- The output gate on the concrete Filter request: not writeable yet, so `output_stream(Stdout)`
+is the documented panic. -/
+example (h : Run.HState) (e : Run.Env) (rest : List Run.HOp) (hops : h.ops = .open_ 6 :: rest) :
+    Run.handlerPoll 1 exEof h e = (exEof, h, e, .panic "async_io:324 output_stream assertion") :=
+  (output_gate 0 exEof h e 6 rest hops).2 (fun hx => by cases hx.2)
+
+end Examples
+
 end Fcgi.C09
